@@ -119,6 +119,7 @@ def check_property_file(pid, timeout=600):
   src = os.path.join(COQ, 'Properties', pid + '.v')
   text = open(src).read()
   theorems = re.findall(r'^\s*Theorem\s+(\w+)', text, re.M)
+  coq_make(['-k'], timeout)   # everything that still builds (other properties' proofs may be broken)
   ok, log = coq_make(['Properties/%s.vo' % pid], timeout)
   res = {'obligations': len(theorems), 'theorems': theorems, 'discharged': 0, 'axioms': [], 'ok': ok,
          'log': log[-4000:]}
